@@ -26,6 +26,7 @@ type Frame struct {
 	freeVar map[*ssa.FreeVar]Val
 	locals  map[string]Val // source-level local variables (from DebugRef), latest binding
 	idxVals map[string]Val // $idx<k> of enclosing range loops
+	safeOn  bool           // inlined closure of the function under verification: its panics are this function's panics
 }
 
 type deferRec struct {
@@ -490,8 +491,9 @@ func (vc *VC) execBlock(fr *Frame, b *ssa.BasicBlock, st *State, skip int, rets 
 }
 
 func (vc *VC) ord(fr *Frame, key string) int {
-	n := fr.callOrd[key]
-	fr.callOrd[key] = n + 1
+	// one counter per verification unit, so names stay unique when closures of the function are inlined
+	n := vc.callOrd[key]
+	vc.callOrd[key] = n + 1
 	return n
 }
 
@@ -554,7 +556,7 @@ func (vc *VC) constVal(c *ssa.Const) Val {
 // ---------------------------------------------------------------- instructions
 
 func (vc *VC) safe(fr *Frame) bool {
-	return fr.top && (vc.spec == nil || !vc.spec.NoSafe)
+	return (fr.top || fr.safeOn) && (vc.spec == nil || !vc.spec.NoSafe)
 }
 
 func (vc *VC) execInstr(fr *Frame, in ssa.Instruction, st *State) {
@@ -570,6 +572,8 @@ func (vc *VC) execInstr(fr *Frame, in ssa.Instruction, st *State) {
 			for _, l := range vc.objLocs(pv) {
 				vc.localCells = append(vc.localCells, [2]string{l.Comp, l.Ref})
 			}
+			// the variable's value is whatever its cell holds (spec names resolve through the cell)
+			st.setLocal(x.Comment, Val{Addr: vc.addrOfPtr(pv), Typ: x.Type(), Sort: "addr"})
 		}
 	case *ssa.FieldAddr:
 		base := vc.operand(fr, x.X)
@@ -716,6 +720,10 @@ func (vc *VC) execInstr(fr *Frame, in ssa.Instruction, st *State) {
 				v := vc.operand(fr, x.X)
 				if x.IsAddr {
 					v = Val{Addr: vc.addrOfPtr(v), Typ: v.Typ, Sort: "addr"}
+				} else if old, ok := st.locals[id.Name]; ok && old.Sort == "addr" {
+					// the variable lives in a cell (address taken / captured): the cell stays the binding,
+					// a value read from it at some point would go stale
+					break
 				}
 				st.setLocal(id.Name, v)
 			}
